@@ -98,13 +98,16 @@ pub async fn handle_notify_get_or_head(
         return Err(req)
     }
 
+    // Subscribe before looking at the version so that a notification sent
+    // between the version check and the wait below is not lost.
+    let mut notify = notify.subscribe();
     let wait = match need_wait(&req, history) {
         Ok(wait) => wait,
         Err(resp) => return Ok(resp),
     };
 
     if wait {
-        notify.subscribe().recv().await;
+        notify.recv().await;
     }
 
     if req.is_head() {
